@@ -603,22 +603,56 @@ func allowedPkg(p string) bool {
 }
 
 func (ex *Exec) run(fr *frame) (result Value) {
-	fr.block = fr.fn.Blocks[0]
+	res, pv := ex.runGuarded(fr, fr.fn.Blocks[0])
+	if pv == nil {
+		return res
+	}
+	// a Go panic unwinds through this frame: run the pending defers; one of them may recover()
+	gp := pv.(goPanic)
+	ex.panics = append(ex.panics, &panicState{p: gp})
+	st := ex.panics[len(ex.panics)-1]
+	depth := ex.depth
+	ds := fr.defers
+	fr.defers = nil
+	for i := len(ds) - 1; i >= 0; i-- {
+		ds[i]()
+	}
+	ex.panics = ex.panics[:len(ex.panics)-1]
+	if !st.recovered {
+		panic(gp)
+	}
+	ex.depth = depth
+	if fr.fn.Recover == nil {
+		return ex.zeroResult(fr.fn.Signature)
+	}
+	res, pv = ex.runGuarded(fr, fr.fn.Recover)
+	if pv != nil {
+		panic(pv)
+	}
+	return res
+}
+
+type panicState struct {
+	p         goPanic
+	recovered bool
+}
+
+// runGuarded runs from block b; a Go-level panic carrying an interpreted goPanic is returned instead of propagated.
+func (ex *Exec) runGuarded(fr *frame, b *ssa.BasicBlock) (result Value, pv interface{}) {
 	defer func() {
-		// run pending defers while a Go panic unwinds through this frame (recover is not modelled)
-		if len(fr.defers) > 0 {
-			if r := recover(); r != nil {
-				if _, isGo := r.(goPanic); isGo {
-					ds := fr.defers
-					fr.defers = nil
-					for i := len(ds) - 1; i >= 0; i-- {
-						ds[i]()
-					}
-				}
-				panic(r)
+		if r := recover(); r != nil {
+			if gp, ok := r.(goPanic); ok {
+				pv = gp
+				return
 			}
+			panic(r)
 		}
 	}()
+	return ex.runBlocks(fr, b), nil
+}
+
+func (ex *Exec) runBlocks(fr *frame, start *ssa.BasicBlock) (result Value) {
+	fr.block = start
 	for {
 		var next *ssa.BasicBlock
 		for _, ins := range fr.block.Instrs {
@@ -1278,6 +1312,12 @@ func (ex *Exec) builtin(b *ssa.Builtin, args []Value, cc *ssa.CallCommon, site s
 		return nil
 	case "print", "println":
 		return nil
+	case "recover":
+		if n := len(ex.panics); n > 0 && !ex.panics[n-1].recovered {
+			ex.panics[n-1].recovered = true
+			return Iface{T: types.Typ[types.String], V: "runtime error: " + ex.panics[n-1].p.msg}
+		}
+		return Iface{}
 	case "ssa:wrapnilchk":
 		if p, ok := args[0].(Ptr); ok && p.IsNil() {
 			panic(goPanic{"value method called using nil pointer", site})
